@@ -42,8 +42,8 @@ class _SafeMonitors:
 
 M = _SafeMonitors()
 
-QUICK = {"sims": 250, "el_len": 4, "el_rand": 300, "fifo_len": 6}
-THORO = {"sims": 3000, "el_len": 5, "el_rand": 4000, "fifo_len": 8}
+QUICK = {"sims": 500, "el_len": 4, "el_rand": 600, "fifo_len": 6}
+THORO = {"sims": 5000, "el_len": 5, "el_rand": 6000, "fifo_len": 8}
 
 
 def sizes(tier):
@@ -104,6 +104,25 @@ def el_random(R, count, maxlen=60):
         yield concretise(ab)
 
 
+def el_long(R, n_ops, burst=0):
+    """one long history: optionally a burst of `burst` schedules into an empty queue, then a long
+    alternation with a small queue and many ties"""
+    now, q, ops, tag = 0.0, [], [], 0
+    for _ in range(burst):
+        ts = now + R.choice([0.0, 1.0, 1.0, 2.0, 0.5])
+        ops.append(("sched", ts, tag)); q.append((ts, tag)); tag += 1
+    for _ in range(burst):
+        ops.append(("pop",)); m = min(q); q.remove(m); now = m[0]
+    while len(ops) < n_ops:
+        if len(q) < 3 or (len(q) < 9 and R.random() < 0.5):
+            ts = now + R.choice([0.0, 0.0, 1.0, 1.0, 2.0, 0.5])
+            ops.append(("sched", ts, tag)); q.append((ts, tag)); tag += 1
+        else:
+            ops.append(("pop",)); m = min(q); q.remove(m); now = m[0]
+    ops += [("len",)] + [("pop",)] * (len(q) + 1)
+    return ops
+
+
 def fifo_exhaustive(maxlen):
     """all insertion orders of timestamps {1,2,3} (ties!) interleaved with pops, then drain"""
     alpha = [1.0, 2.0, 3.0, "pop"]
@@ -142,8 +161,14 @@ def run_el_class(chk, cls, histories, batch=4000):
             chk.validated += 1
             viol = [x for x in M.mon_el(ops, r["impl"]) if x.startswith(chk.prop)]
             if viol:
-                small = shrink(ops, lambda c: any(x.startswith(chk.prop) for x in M.mon_el(c, corr.run_el_impl(c))),
-                               list_candidates)
+                if len(ops) > 3000:
+                    # a very long history: cut it right after the first failing operation instead of delta debugging
+                    import re
+                    m_ = re.search(r"op (\d+)", viol[0])
+                    small = ops[:int(m_.group(1)) + 1] if m_ else ops
+                else:
+                    small = shrink(ops, lambda c: any(x.startswith(chk.prop) for x in M.mon_el(c, corr.run_el_impl(c))),
+                                   list_candidates)
                 from scripted import run_el_impl
                 chk.violation(cls, {"ops": small}, M.mon_el(small, run_el_impl(small)),
                               extra={"impl": run_el_impl(small)})
@@ -192,7 +217,11 @@ def run_sim_class(chk, cls, scs, mons, variant=None, batch=250, tag=None):
 
 
 def _brief(sc):
-    return {k: sc[k] for k in ("handlers", "nodes", "med", "mob", "asserts", "seed", "dur", "maxit", "drv", "script")}
+    d = {k: sc[k] for k in ("handlers", "nodes", "med", "mob", "asserts", "seed", "dur", "maxit", "drv", "script")}
+    for k in ("reuse_commands", "stream"):
+        if k in sc:
+            d[k] = sc[k]
+    return d
 
 
 def _shrink_sim(sc, mons, tag, variant):
@@ -248,6 +277,30 @@ def run_corpus(chk, mons_sim):
 # C01 .. C06
 # ---------------------------------------------------------------------------------------------
 
+def gen_timer_storm(R):
+    """many timers of one name set and then cancelled while other events are pending (cancelled timers
+    stay queued until their time), then the run goes on with ordinary timers and messages"""
+    nn = R.randint(1, 3)
+    k = R.choice([40, 64, 65, 70, 100, 130])
+    acts = [("settimer", 0, "abs", R.choice([1.0, 2.0, 3.0, 4.0]) + i * 0.001) for i in range(k)]
+    acts.insert(R.randrange(len(acts)), ("settimer", 1, "abs", 0.5))
+    acts.insert(R.randrange(len(acts)), ("settimer", 2, "abs", 2.5))
+    acts += [("settimer", 1, "abs", 6.0), ("settimer", 2, "abs", 5.0), ("settimer", 1, "abs", 1.5), ("settimer", 2, "abs", 3.5), ("settimer", 1, "abs", 4.5)]
+    when = R.choice(["init", "timer"])
+    script = [[] for _ in range(nn)]
+    if when == "init":
+        script[0].append({"trig": ("init",), "nth": None, "acts": acts + [("cancel", 0)]})
+    else:
+        script[0].append({"trig": ("init",), "nth": None, "acts": acts})
+        script[0].append({"trig": ("timer", 1), "nth": 0, "acts": [("cancel", 0), ("settimer", 0, "rel", 0.25)]})
+    script[0].append({"trig": ("timer", None), "nth": R.randrange(3), "acts": [("settimer", 2, "rel", 0.5), ("bcast", 7)]})
+    for me in range(1, nn):
+        script[me].append({"trig": ("init",), "nth": None, "acts": [("settimer", 0, "abs", R.choice([0.75, 2.25, 5.5])), ("send", 3, 0)]})
+    return {"handlers": ["T", "C"] + (["R0"] if R.random() < 0.5 else []),
+            "nodes": [{"pos": (float(i), 0.0, 0.0), "ty": 0} for i in range(nn)], "med": (1000.0, R.choice([0.0, 0.5]), 0.0),
+            "mob": (1.0, 1.0, (0.0, 0.0, 0.0)), "asserts": [], "seed": 1, "dur": None, "maxit": None, "drv": ("run",), "script": script}
+
+
 def check_C01(chk, R, S):
     chk.rule = ("event-loop API histories (exhaustive over {schedule at clock-1/+0/+1/+2, pop, peek, clear, len} up to "
                 "length %d, then random to length 60) and whole simulations from the structured-random script generator; "
@@ -259,6 +312,7 @@ def check_C01(chk, R, S):
     run_sim_class(chk, "sim-general", gen_many(R, S["sims"], {}), [M.mon_C01])
     run_sim_class(chk, "sim-ties", gen_many(R, S["sims"] // 2, {"p_timer": 1.0, "p_comm": 1.0, "delays": [0.0, 0.5, 1.0],
                                                               "max_rules": 5, "fails": [0.0]}), [M.mon_C01])
+    run_sim_class(chk, "sim-timer-storm", [gen_timer_storm(R) for _ in range(max(12, S["sims"] // 20))], [M.mon_C01])
     chk.exhaustive = True
 
 
@@ -269,6 +323,7 @@ def check_C02(chk, R, S):
     run_corpus(chk, [])
     run_el_class(chk, "el-exhaustive", el_exhaustive(S["el_len"]))
     run_el_class(chk, "el-random", el_random(R, S["el_rand"]))
+    run_el_class(chk, "el-burst-1100", [el_long(R, 2600, burst=R.choice([1024, 1100, 1300]))], batch=1)
     prof = {"p_bounded": 1.0, "p_mob": 0.0, "p_steps": 0.1, "range": 1000.0, "fails": [0.0, 0.0, 0.5],
             "acts": ["settimer", "cancel", "send", "bcast", "flag", "goto"]}
     run_sim_class(chk, "sim-exhaustion", gen_many(R, S["sims"], prof), [M.mon_C02])
@@ -282,6 +337,7 @@ def check_C03(chk, R, S):
     run_corpus(chk, [M.mon_C03])
     run_el_class(chk, "fifo-exhaustive", fifo_exhaustive(S["fifo_len"]))
     run_el_class(chk, "el-random", el_random(R, S["el_rand"]))
+    run_el_class(chk, "el-long-150000", [el_long(R, 150000) for _ in range(6 if chk.tier == "quick" else 16)], batch=2)
     run_sim_class(chk, "sim-bursts", [gen_burst(R) for _ in range(S["sims"])], [M.mon_C03])
     run_sim_class(chk, "sim-timer-rearm", [gen_rearm(R) for _ in range(S["sims"])], [M.mon_C03])
     chk.exhaustive = True
@@ -365,10 +421,14 @@ def check_C04(chk, R, S):
         times = sorted({ts for _, ts in ex})
         durs = [None, 0.0]
         if times:
-            durs += [R.choice(times), times[-1], times[-1] + 1.0]
+            import math
+            t0 = R.choice(times)
+            durs += [R.choice(times), times[-1], times[-1] + 1.0,
+                     math.nextafter(t0, -math.inf), math.nextafter(t0, math.inf), t0 * (1 - 1e-12), round(t0, 1), round(t0, 2)]
             if len(times) > 1:
                 k = R.randrange(len(times) - 1)
                 durs.append((times[k] + times[k + 1]) / 2)
+        durs = [d for d in durs if d is None or d >= 0.0]        # a negative duration is not a meaningful configuration
         its = [None, 0, 1, max(1, len(ex) // 2), len(ex), len(ex) + 5]
         for _ in range(4):
             c = copy.deepcopy(base)
@@ -454,6 +514,23 @@ def check_C06(chk, R, S):
             if a != s_:
                 d = corr.first_diff(a, s_)
                 chk.violation("stepped", r["sc"], ["C06: blocking and stepped runs differ at line %d: %r vs %r" % d])
+        # some manual steps (not finishing the run), then the blocking call
+        mixed = []
+        for r in base:
+            c = copy.deepcopy(r["sc"])
+            c["drv"] = ("mixed", R.randint(1, 6))
+            mixed.append(c)
+        res = corr.corr_sims(mixed)
+        for r, b in zip(res, base):
+            chk.record("mixed-driving", _brief(r["sc"]), False)
+            chk.validated += 1
+            if r["diff"] is not None:
+                chk.corr_break("mixed-driving", r["sc"], r["diff"], extra={"impl": r["impl"][:100], "model": r["model"][:100]})
+            a = [l for l in b["impl"] if not l.startswith(("ret", "end"))]
+            s_ = [l for l in r["impl"] if not l.startswith(("ret", "end"))]
+            if a != s_:
+                d = corr.first_diff(a, s_)
+                chk.violation("mixed-driving", r["sc"], ["C06: a run driven by some steps and then the blocking call differs from the blocking run at line %d: %r vs %r" % d])
         # two simulations interleaved in one process
         import lockstep
         pairs = [(scs[i], scs[(i + 1) % len(scs)]) for i in range(0, len(scs) - 1, 2)]
@@ -494,6 +571,7 @@ def check_C07(chk, R, S):
     for sc in scs:
         sc["dur"], sc["maxit"] = None, None
     run_sim_class(chk, "sim-timers-exhaustion", scs, [M.mon_C07])
+    run_sim_class(chk, "sim-timer-storm", [gen_timer_storm(R) for _ in range(max(12, S["sims"] // 20))], [M.mon_C07])
 
 
 def check_C08(chk, R, S):
@@ -503,7 +581,15 @@ def check_C08(chk, R, S):
     run_corpus(chk, [M.mon_C08])
     prof = {"min_nodes": 2, "max_nodes": 8, "p_comm": 1.0, "range": 1000.0, "fails": [0.0, -0.5], "p_assert": 0.0,
             "acts": ["send", "send", "bcast", "settimer", "goto", "flag"], "bad_send": 0.2, "p_mob": 0.3}
-    run_sim_class(chk, "sim-inrange", gen_many(R, S["sims"], prof), [M.mon_C08])
+    scs0 = gen_many(R, S["sims"], prof)
+    for sc in scs0:
+        if R.random() < 0.5:
+            sc["reuse_commands"] = True       # the protocol re-fills one command object for every send
+    run_sim_class(chk, "sim-inrange", scs0, [M.mon_C08])
+    bursts = [gen_burst(R) for _ in range(S["sims"] // 2)]
+    for sc in bursts:
+        sc["reuse_commands"] = True
+    run_sim_class(chk, "sim-bursts-reused-commands", bursts, [M.mon_C08])
     scs = gen_many(R, S["sims"] // 2, dict(prof, p_bounded=1.0, p_mob=0.0, p_steps=0.0))
     for sc in scs:
         sc["dur"], sc["maxit"] = None, None
@@ -616,6 +702,16 @@ def check_C10(chk, R, S):
                 pats.append((tuple(keep if b else 0.25 for b in bits), f))
     run_sim_class(chk, "loss-patterns-exhaustive", [gen_loss_scenario(R, p) for p in pats], [M.mon_C10])
     run_sim_class(chk, "loss-scripted-random", [gen_loss_scenario(R) for _ in range(S["sims"])], [M.mon_C10])
+    big = []
+    for _ in range(max(6, S["sims"] // 40)):
+        nn = R.randint(33, 48)
+        f = R.choice([0.01, 0.1, 0.5, 0.9])
+        stream = [R.choice([0.0, f, R.random(), R.random(), 1.0 - 2.0 ** -53]) for _ in range(3 * nn)]
+        big.append({"handlers": ["C", "T"], "nodes": [{"pos": (float(i % 7), float(i // 7), 0.0), "ty": 0} for i in range(nn)],
+                    "med": (1000.0, 0.0, f), "mob": (1.0, 1.0, (0.0, 0.0, 0.0)), "asserts": [], "seed": 1, "stream": stream,
+                    "dur": None, "maxit": None, "drv": ("run",),
+                    "script": [[{"trig": ("init",), "nth": None, "acts": [("bcast", 1), ("bcast", 2)]}]] + [[] for _ in range(nn - 1)]})
+    run_sim_class(chk, "loss-large-broadcast", big, [M.mon_C10])
     prof = {"min_nodes": 2, "max_nodes": 6, "p_comm": 1.0, "fails": [0.0, 0.1, 0.5, 0.9, 1.0], "p_assert": 0.0,
             "acts": ["send", "bcast", "bcast", "settimer", "range"]}
     run_sim_class(chk, "loss-seeded", gen_many(R, S["sims"], prof), [])
@@ -661,8 +757,10 @@ def gen_motion(R):
                 x = R.random()
                 if x < 0.5:
                     acts.append(("goto",) + (gen_sim.gen_pos(R, 10) if R.random() < 0.8 else tuple(float(v) for v in (R.randint(-3, 3), R.randint(-3, 3), R.randint(0, 2)))))
-                elif x < 0.9:
+                elif x < 0.8:
                     acts.append(("speed", R.choice([0.0, 0.5, 1.0, 2.0, 5.0, 10.0, 100.0, R.uniform(0, 20)])))
+                elif x < 0.92:
+                    acts.append(("gotohere",))          # "halt where you are"
                 else:
                     acts.append(("gotogeo", R.uniform(-2e-4, 2e-4), R.uniform(-2e-4, 2e-4), R.uniform(0, 5)))
             rules.append({"trig": R.choice([("telem",), ("telem",), ("timer", None)]), "nth": R.randrange(12), "acts": acts})
@@ -828,6 +926,11 @@ def run_plugin_class(chk, cls, cases, impl, to_text, monitor, nontrivial=lambda 
         out = run_driver("".join(texts))
         for j, c in enumerate(part):
             m = out.get("p%d" % j, ["<no model output>"])
+            if any("runaway" in l for l in impls[j]) and any(l.count("call ") > 380 for l in m):
+                # a handler that keeps registering itself makes the chain grow without bound, in the model
+                # as in the code: the harness' invocation guard stopped the implementation; nothing to compare
+                chk.record(cls, {"skipped": "self-amplifying handler chain"}, False)
+                continue
             chk.record(cls, c if len(str(c)) < 1500 else {"ops": len(c.get("ops", []))}, nontrivial(c, impls[j]),
                        feats=[cls + ":" + (o[0] if isinstance(o, (list, tuple)) else str(o)) for o in c.get("ops", [])][:40])
             chk.validated += 1
@@ -883,8 +986,16 @@ def gen_disp_case(R, maxops=10):
             res = R.choice(["continue", "continue", "interrupt", "none"])
             ops = []
             for _ in range(R.choices([0, 1, 2], weights=[5, 3, 1])[0]):
-                ops.append((R.choice(["reg", "unreg", "unreg"]), R.randrange(ninst), R.choice(["timer", "timer", "telem", "packet", "init", "finish"]),
-                            R.choice([h, h, R.randrange(nh)])))
+                kind_ = R.choice(["reg", "unreg", "unreg"])
+                if kind_ == "reg":
+                    # a running handler registers only handlers with a smaller id: chains cannot amplify themselves
+                    # without bound (self-registration is covered by the small exhaustive class)
+                    if h == 0:
+                        continue
+                    tgt = R.randrange(h)
+                else:
+                    tgt = R.choice([h, h, R.randrange(nh)])
+                ops.append((kind_, R.randrange(ninst), R.choice(["timer", "timer", "telem", "packet", "init", "finish"]), tgt))
             table.append((res, ops))
         beh.append(table)
     ops = [("create", i) for i in range(ninst) if R.random() < 0.9]
@@ -932,6 +1043,8 @@ def check_C15(chk, R, S):
                      plugins.disp_to_text, M.mon_C15)
     run_plugin_class(chk, "disp-random", [gen_disp_case(R, 10 if chk.tier == "quick" else 40) for _ in range(S["sims"] * 4)],
                      plugins.run_disp_impl, plugins.disp_to_text, M.mon_C15)
+    many = {"ninst": 1, "beh": [[("continue", [])]], "ops": [("create", 0), ("reg", 0, "timer", 0)] + [("create", 0)] * 1200 + [("disp", 0, "timer")]}
+    run_plugin_class(chk, "disp-many-creates", [many], plugins.run_disp_impl, plugins.disp_to_text, M.mon_C15)
     chk.exhaustive = True
 
 
@@ -1184,9 +1297,11 @@ def gen_interop_case(R, with_cancel=False):
         acts = [gen_sim.gen_action(R, {"acts": acts_pool, "bad_send": 0.3}, 4, nid) for _ in range(R.randint(1, 5))]
         rules.append({"trig": trig, "nth": R.choice([None, None, 0, 1]), "acts": acts})
     cbs = [{"t": 0.0, "kind": "init", "arg": None}]
-    t = 0.0
+    t = R.choice([0.0, 0.0, 0.0, 1e7, 9.3e6, 1e12])
+    if R.random() < 0.3:
+        rules.append({"trig": ("timer", None), "nth": None, "acts": [("settimer", 1, "abs", R.choice([1e7, 9223372.5, 1e13, 2.0 ** 70]))]})
     for _ in range(R.randint(2, 12)):
-        t += R.choice([0.0, 0.1, 0.25, 0.7000000000000001 - 0.7, 1.0 / 3, R.uniform(0, 1)])
+        t += R.choice([0.0, 0.1, 0.25, 0.7000000000000001 - 0.7, 1.0 / 3, R.uniform(0, 1), 1e6])
         k = R.choice(["timer", "packet", "telem", "telem"])
         arg = R.randrange(3) if k == "timer" else (R.randrange(20) if k == "packet" else gen_sim.gen_pos(R, 10))
         cbs.append({"t": t, "kind": k, "arg": arg})
